@@ -60,6 +60,8 @@ package jsonrpc2
 //@   transition @T5b-nothing-enqueued-during-shutdown old(shutting(s)) ==> len(s.handlerQueue) <= old(len(s.handlerQueue))
 //@   transition @T7-indexed-requests-are-never-replaced forall id ID :: {inDom(s.incomingByID, id)} old(id in s.incomingByID) && id in s.incomingByID ==> rawGet(s.incomingByID, id) == old(rawGet(s.incomingByID, id))
 //@   transition @T8-counters-move-by-one s.incoming - old(s.incoming) <= 1 && old(s.incoming) - s.incoming <= 1
+//@   montrack c.onDone as doneHook
+//@   transition @T10-done-hook-runs-when-the-connection-finishes !old(closed(c.done)) && closed(c.done) && c.onDone != nil ==> calls(doneHook) == 1
 //@   transition @T9-closer-consumed-only-when-finished old(s.closer != nil) && s.closer == nil ==> idle(s) && shutting(s)
 
 // ---- actions with thread-local preconditions (facts about captured variables the enclosing function owns) ----
